@@ -64,6 +64,9 @@ func captureReinitHashes(w *world.World) map[string][]byte {
 func checkC20(c *Ctx) {
 	c.Rule = "original ceremonies for (n,t), n<=4, under random delivery (some with an interleaved second round, signing and junk on the board) are reinitialised on fresh nodes with fresh communication keys and fresh machines from the same mnemonics through the real procedure (GenerateReDKGMessage, optionally stripped to the v0.1.4 shape + GetAdaptedReDKG, ReInitDKG, reinit operation through every machine, result back); plus the recorded v0.1.4 log of the repository with its mnemonics. Oracle: every node signing-idle with the original participants, threshold and public polynomial; every machine's share equals the original; a batch signed afterwards verifies (prysm) under the original group key; the confirmation hash is identical on all nodes and changes under every single-field edit of the reinit file. distinct = distinct (scenario, n, t) reinitialisations + distinct edited fields"
 	c.Assumptions = []string{"the dump contains the target round's complete key generation before the first signing proposal (the arrangement the tooling supports)", "the v0.1.4 log is judged against the group key announced in the log itself"}
+	// machines log their operations (so that a restart + replay after the reinitialisation is possible)
+	world.UseOpLog = true
+	defer func() { world.UseOpLog = false }()
 	type job struct {
 		n, t  int
 		shape string // plain | adapted014 | interleaved
@@ -147,6 +150,7 @@ func runC20(c *Ctx, n, t int, shape string, seed uint64) {
 }
 
 func judgeReinit(c *Ctx, ce *Ceremony, re *types.ReDKG, origKey []byte, origCommits [][]byte, origShares map[string][]byte, origView *dumpView, wit map[string]interface{}, r *sched.Rng) {
+	restartAfter := r.Intn(2) == 0 || wit["shape"] == "plain"
 	w := ce.W
 	if !ce.AllIn(StIdle) {
 		c.Violate("C20/node-not-signing-ready-after-reinit", fmt.Sprint(ce.States()), wit)
@@ -204,6 +208,22 @@ func judgeReinit(c *Ctx, ce *Ceremony, re *types.ReDKG, origKey []byte, origComm
 	}
 	if len(hs) != len(w.Nodes) || len(h0) == 0 {
 		c.Violate("C20/confirmation-hash-missing", fmt.Sprintf("%d of %d nodes recorded one", len(hs), len(w.Nodes)), wit)
+	}
+	// the operators' machines are restarted after the reinitialisation (closed, reopened from the database,
+	// operation log replayed as the manual prescribes) before anything is signed
+	if restartAfter {
+		for i, nd := range w.Nodes {
+			rerr, _, _, err := restartMachine(w, nd, ce.Round, 1000+i)
+			if err != nil {
+				c.Violate("C20/machine-restart-after-reinit-fails", err.Error(), wit)
+				return
+			}
+			if rerr != nil {
+				c.Violate("C20/operation-log-replay-after-reinit-fails", fmt.Sprintf("%s: %v", nd.Name, rerr), wit)
+				return
+			}
+		}
+		c.Add("machines_restarted_after_reinit", len(w.Nodes))
 	}
 	// signatures produced afterwards verify under the ORIGINAL group key
 	prop, err := ce.RunBatch(BatchSpec{Proposer: len(w.Nodes) - 1, Data: map[string][]byte{"after": r.Bytes(20)}}, world.RandomPolicy)
